@@ -362,7 +362,7 @@ def storage_mc(tier, seed):
         os.makedirs(os.path.dirname(cfg), exist_ok=True)
         wrapping = cf["Wrapping"] == "TRUE"
         with open(cfg, "w") as f:
-            f.write("SPECIFICATION Spec\nCONSTANTS\n" + "".join("  %s = %s\n" % kv for kv in cf.items()) + "  Pinned = FALSE\n  Edges = FALSE\n")
+            f.write("SPECIFICATION Spec\nCONSTANTS\n" + "".join("  %s = %s\n" % kv for kv in cf.items()) + "  Pinned = FALSE\n  Edges = FALSE\n  TrackDirect = TRUE\n")
             if wrapping:
                 # history ghosts are unbounded under wrapping; only structural / in-bounds invariants, states identified by st
                 f.write("INVARIANTS RepInv C03_DirectInBounds C03_EntityInBounds\nVIEW StView\nCHECK_DEADLOCK FALSE\n")
@@ -384,4 +384,66 @@ def storage_mc(tier, seed):
                                                     "invariants": sorted(MC_TAGS)}],
            "wall_s": round(time.time() - t0, 1), "cached": False, "exhaustive_within_bounds": True}
     cache_put("storage_mc", key, res)
+    return res
+
+
+def tour(tier, seed, features=(), release=False):
+    """Spec -> code: every state-changing transition of the slot-map model replayed on the real crate."""
+    import tour as T
+    feats = tuple(sorted(features))
+    key = key_of("tour", repo_hash(), verif_hash(), tier, feats, release)
+    c = cache_get("tour", key)
+    if c:
+        c["cached"] = True
+        return c
+    t0 = time.time()
+    binp = build_harness(feats, release)
+    if tier == "quick":
+        consts = dict(MaxCap=6, MaxSlotVer=3, MaxArchVer=3, InitCaps="{0, 1, 2, 3}")
+        caps, archs = [0, 1, 2, 3], [0, 2]
+    else:
+        consts = dict(MaxCap=6, MaxSlotVer=3, MaxArchVer=4, InitCaps="{0, 1, 2, 3, 5}")
+        caps, archs = [0, 1, 2, 3, 5], [0, 1, 2, 3]
+    edges_all, st = T.export_edges(consts)
+    edges = [e for e in edges_all if T.real_edge(e)]
+    paths, unreachable = T.plan_paths(edges, caps)
+    covered = len({ei for p in paths for ei in p})
+    violations, parts = [], []
+    def one(a):
+        lines, expect = T.render(edges, paths, a, caps)
+        sfile = os.path.join(_trace_dir(), "tour-%s-%d.txt" % (key[:8], a))
+        with open(sfile, "w") as f:
+            f.write("\n".join(lines) + "\n")
+        trace = sfile + ".ndjson"
+        rc, out, dt = sh([binp, "exec", "--in", sfile, "--out", trace], timeout=3000, check=False)
+        if rc != 0:
+            with open(trace, "a") as f:
+                f.write(json.dumps({"op": "crash", "phase": "process", "during": "tour", "signal": -rc if rc < 0 else rc}) + "\n")
+        viol, tst = validate_trace(trace, timeout=6000)
+        matched, drift, first = T.compare(trace, expect, a)
+        n, ops = _count_ops(trace)
+        res = {"a": a, "script_lines": len(lines), "events": n, "ops": ops, "tlc": tst, "matched": matched, "drift": drift, "first_drift": first,
+               "violations": _collect(trace, viol, {"engine": "tour", "archetype": a, "script": sfile}),
+               "samples": [{"script_head": lines[:12]}] if a == archs[0] else []}
+        if not viol:
+            os.remove(trace)
+            os.remove(sfile)
+        return res
+    with ThreadPoolExecutor(max_workers=4) as ex:
+        parts = list(ex.map(one, archs))
+    drift = sum(p["drift"] for p in parts)
+    if drift:
+        log("DRIFT: the real storage differs from the implementation-level model after %d steps (not a violation): %s"
+            % (drift, json.dumps([p["first_drift"] for p in parts if p["first_drift"]][:1])[:600]))
+    res = {"engine": "tour", "cfg": cfg_name(feats, release), "tier": tier, "model": consts,
+           "model_states": st.get("distinct", 0), "model_transitions_generated": st.get("generated", 0),
+           "edges_exported": len(edges_all), "edges_real": len(edges), "edges_covered": covered, "edges_unreachable": unreachable,
+           "paths": len(paths), "archetypes": archs, "traces": len(paths) * len(archs),
+           "events": sum(p["events"] for p in parts), "impl_states_matched": sum(p["matched"] for p in parts), "drift": drift,
+           "first_drift": next((p["first_drift"] for p in parts if p["first_drift"]), None),
+           "tlc_states": st.get("distinct", 0) + sum(p["tlc"].get("distinct", 0) for p in parts),
+           "tlc_transitions": st.get("generated", 0) + sum(p["tlc"].get("generated", 0) for p in parts),
+           "violations": [v for p in parts for v in p["violations"]], "samples": [s for p in parts for s in p["samples"]],
+           "exhaustive": drift == 0 and unreachable == 0, "wall_s": round(time.time() - t0, 1), "cached": False}
+    cache_put("tour", key, res)
     return res
